@@ -27,14 +27,30 @@ import (
 	"verif/harness/hx"
 )
 
+// affSeq is a sequence object; the executor hands the aligner a pointer to it, so that the
+// warm-up call and the real call of a case use the same object.
 type affSeq struct {
 	a alphabet.Alphabet
 	s alphabet.Slice
 }
 
-func (s affSeq) Alphabet() alphabet.Alphabet { return s.a }
-func (s affSeq) Slice() alphabet.Slice       { return s.s }
-func (s affSeq) SetSlice(sl alphabet.Slice)  {}
+func (s *affSeq) Alphabet() alphabet.Alphabet { return s.a }
+func (s *affSeq) Slice() alphabet.Slice       { return s.s }
+func (s *affSeq) SetSlice(sl alphabet.Slice)  {}
+
+// warm makes the object hold, in place, what the warm-up call is to see (c08_history.go: the
+// case's letters, their first half, or all of the stretched backing array) and returns the
+// function that restores the case's slice.
+func (s *affSeq) warm(seqs int) (restore func()) {
+	own := s.s
+	switch sl := own.(type) {
+	case alphabet.Letters:
+		s.s = sl[:alnWarmLen(seqs, len(sl), cap(sl))]
+	case alphabet.QLetters:
+		s.s = sl[:alnWarmLen(seqs, len(sl), cap(sl))]
+	}
+	return func() { s.s = own }
+}
 
 func affAlphabet(name string) alphabet.Alphabet {
 	if name == "none" {
@@ -43,15 +59,19 @@ func affAlphabet(name string) alphabet.Alphabet {
 	return builtinByName(name)
 }
 
+// affSlice returns the letters as the first len(letters) elements of a longer backing array
+// (alnStretched); only a warm-up call ever sees the rest.
 func affSlice(typ string, letters []byte) alphabet.Slice {
+	n := len(letters)
+	letters = alnStretched(letters)
 	if typ == "q" {
 		ql := make(alphabet.QLetters, len(letters))
 		for i, b := range letters {
 			ql[i] = alphabet.QLetter{L: alphabet.Letter(b), Q: alphabet.Qphred((i*7 + 3) % 41)}
 		}
-		return ql
+		return ql[:n]
 	}
-	return alphabet.Letters(alphabet.BytesToLetters(append([]byte{}, letters...)))
+	return alphabet.Letters(alphabet.BytesToLetters(letters))[:n]
 }
 
 func affMatrix(s string) align.Linear {
@@ -123,14 +143,20 @@ func affPairs(ps []feat.Pair) string {
 	return strings.Join(parts, ",")
 }
 
-func affRun(op string, ra, qa alphabet.Alphabet, rt, qt string, m align.Linear, open int, rb, qb []byte) (string, []feat.Pair, affSeq, affSeq) {
-	rs := affSeq{ra, affSlice(rt, rb)}
-	qs := affSeq{qa, affSlice(qt, qb)}
-	ps, err := affAligner(op, m, open).Align(rs, qs)
+// affRun makes one Align call with the aligner value al on fresh sequence objects.
+func affRun(al align.Aligner, ra, qa alphabet.Alphabet, rt, qt string, rb, qb []byte) (string, []feat.Pair, *affSeq, *affSeq) {
+	rs := &affSeq{ra, affSlice(rt, rb)}
+	qs := &affSeq{qa, affSlice(qt, qb)}
+	obs, ps := affAlign(al, rs, qs)
+	return obs, ps, rs, qs
+}
+
+func affAlign(al align.Aligner, rs, qs *affSeq) (string, []feat.Pair) {
+	ps, err := al.Align(rs, qs)
 	if err != nil {
-		return affErrKind(err), nil, rs, qs
+		return affErrKind(err), nil
 	}
-	return "ok " + affPairs(ps), ps, rs, qs
+	return "ok " + affPairs(ps), ps
 }
 
 func affExec(input string) string {
@@ -141,9 +167,32 @@ func affExec(input string) string {
 	op, rt, qt := f[0], f[3], f[4]
 	ra, qa := affAlphabet(f[1]), affAlphabet(f[2])
 	open := hx.Atoi(f[5])
-	m := affMatrix(f[6])
+	want := affMatrix(f[6])
 	rb, qb := hx.Unhex(f[7]), hx.Unhex(f[8])
-	obs, ps, rs, qs := affRun(op, ra, qa, rt, qt, m, open, rb, qb)
+	rs := &affSeq{ra, affSlice(rt, rb)}
+	qs := &affSeq{qa, affSlice(qt, qb)}
+	// Usage history (c08_history.go): half of the cases first make a warm-up call with the same
+	// matrix object holding other numbers, the same aligner value and the same sequence
+	// objects, then overwrite the matrix in place with the case's; the property is per call,
+	// so the observation must not depend on it.
+	var al align.Aligner
+	if hist := alnHistoryOf(input); hist.warm {
+		obj := newAlnMatrixObject(want, hist.shape)
+		al = affAligner(op, obj.warmup(), open)
+		rr, rq := rs.warm(hist.seqs), qs.warm(hist.seqs)
+		alnQuiet(func() { al.Align(rs, qs) })
+		rr()
+		rq()
+		m := obj.settle()
+		if hist.shape != 0 || len(want) == 0 {
+			// another number of rows: the aligner value holds the slice header, so it is re-made
+			// around the same backing arrays; for shape 0 the same aligner value is re-used
+			al = affAligner(op, m, open)
+		}
+	} else {
+		al = affAligner(op, want, open)
+	}
+	obs, ps := affAlign(al, rs, qs)
 	if ps == nil {
 		return obs
 	}
@@ -153,7 +202,7 @@ func affExec(input string) string {
 		if rt == "q" {
 			other = "l"
 		}
-		obs2, _, _, _ := affRun(op, ra, qa, other, other, m, open, rb, qb)
+		obs2, _, _, _ := affRun(al, ra, qa, other, other, rb, qb)
 		tq = hx.B(obs2 == obs)
 	}
 	fr := "x"
